@@ -13,7 +13,8 @@ SPELL = {
     0: ["machine", "Machine", "ma"], 1: ["package", "Package", "pack", "socket", "pa"], 2: ["die", "Die"],
     3: ["core", "Core", "co"], 4: ["pu", "PU"], 5: ["l1", "L1Cache", "l1d", "L1dcache", "l1u"], 6: ["l2", "L2Cache", "L2"],
     7: ["l3", "L3Cache", "l3u"], 8: ["l4", "L4"], 9: ["l5"], 10: ["l1i", "L1iCache", "L1i"], 11: ["l2i", "L2iCache"], 12: ["l3i"],
-    13: ["group", "Group", "gr"], 14: ["numa", "NUMANode", "node", "numanode", "nu"], 15: ["memcache", "MemCache"],
+    13: ["group", "Group", "gr"], 14: ["numa", "NUMANode", "node", "numanode", "nu"], 15: ["memcache", "MemCache", "memca"],
+    16: ["bridge", "Bridge"], 17: ["pci", "PCIDev", "pcidev"], 18: ["os", "OSDev", "osdev"], 19: ["misc", "Misc"],
 }
 
 
@@ -146,6 +147,15 @@ class Info:
 
     def npus(self):
         return len(self.levels.get(self.depth - 1, []))
+
+    def output_levels(self):
+        """(depth, type) of every level -N / -I may name: the normal depths and every special level that has
+        objects (NUMA nodes, memory-side caches, bridges, PCI devices, OS devices, Misc)"""
+        res = [(d, self.level_type[d]) for d in range(self.depth)]
+        for d, ty in ((-3, 14), (-8, 15), (-4, 16), (-5, 17), (-6, 18), (-7, 19)):
+            if self.levels.get(d):
+                res.append((d, ty))
+        return res
 
     def usable_levels(self):
         """(depth, type) of the levels a location may name: normal depths and the NUMA level"""
@@ -332,15 +342,22 @@ def gen_cmdline(rng, info, spec_only=False, mem=False):
     out = ("set",)
     r = rng.random()
     lv = info.usable_levels()
-    if mem and r < 0.45:
+    olv = info.output_levels()
+    special = [x for x in olv if x[0] < 0 and x[0] != -3]
+    if special and r < 0.30:
+        # every special level: memory-side caches (selected by NODESET), I/O and Misc objects (by the cpuset of
+        # their first ancestor that has one)
+        d, ty = rng.choice(special + [x for x in special if x[0] == -8] * 2)
+        out = (rng.choice(["I", "N"]), type_spelling(rng, info, d, ty), d)
+    elif mem and r < 0.45:
         out = (rng.choice(["I", "N"]), type_spelling(rng, info, -3, 14), -3)
     elif r < 0.14:
         out = ("largest",)
     elif r < 0.28:
-        d, ty = rng.choice(lv)
+        d, ty = rng.choice(olv)
         out = ("I", type_spelling(rng, info, d, ty), d)
     elif r < 0.40:
-        d, ty = rng.choice(lv)
+        d, ty = rng.choice(olv)
         out = ("N", type_spelling(rng, info, d, ty), d)
     elif r < 0.50:
         normal = sorted(set(x for x in lv if x[0] >= 0))
